@@ -1049,7 +1049,10 @@ fn parse_files0_args(config: &mut Config) -> Result<(), Box<dyn Error>> {
         .collect();
     // empty starting point checker
     if string_segments.iter().any(|s| s.is_empty()) {
-        eprintln!("find: invalid zero-length file name");
+        {
+            use std::io::Write;
+            let _ = writeln!(std::io::stderr(), "find: invalid zero-length file name");
+        }
         // remove the empty ones so as to avoid file not found error
         string_segments.retain(|s| !s.is_empty());
     }
